@@ -7,3 +7,5 @@ import DateutilVerif.Properties.C11
 #print axioms C11.exec_bound
 #print axioms C11.finished_answer
 #print axioms C11.all_complete
+#print axioms C11.nested_no_deadlock_partial
+#print axioms C11.nested_all_complete_partial
